@@ -40,6 +40,9 @@ func NewSched(w *World) *Sched {
 		if point == "commit.after" && !w.Bulk {
 			w.T.Log(Ev{"e": "after", "t": w.T.Actor()})
 		}
+		if point == "key.checked" {
+			w.KeyHook()
+		}
 		if a == nil || s.Skip[point] {
 			return // unmanaged goroutine (the scheduler itself, vacuum, s2 writers)
 		}
